@@ -43,6 +43,14 @@ Theorem C25_line_out_of_range : forall s l, l < 0 \/ count_nl s < l ->
 Proof. exact line_span_none. Qed.
 Print Assumptions C25_line_out_of_range.
 
+(* line_span / read_line cannot panic: every string slice is taken at code-point boundaries inside
+   the text and no usize subtraction underflows (line_span_res / read_line_res are the same
+   functions with those panic sites explicit; outer None = panic). *)
+Theorem C25_line_no_panic : forall s l,
+  line_span_res s l = Some (line_span s l) /\ read_line_res s l = Some (read_line s l).
+Proof. intros s l. split; [apply line_span_res_ok|apply read_line_res_ok]. Qed.
+Print Assumptions C25_line_no_panic.
+
 (* The model's whitespace test is the Unicode White_Space table. *)
 Theorem C25_whitespace_table : forall c, is_ws c = true <-> In c white_space.
 Proof. exact is_ws_spec. Qed.
